@@ -29,6 +29,11 @@ CONFIGS: Dict[str, Dict[str, Any]] = {
     "rom+card8k": {"rom": True, "card": 8192},
     "rom+card64k": {"rom": True, "card": 65536},
     "rom+nocard": {"rom": True, "card_present": False},
+    # a write-protected card, and slot states reached through a REJECTED operation (a load with an unsupported size raises and
+    # must leave the slot as it was: still write-protected / still absent)
+    "rom+card8k-ro": {"rom": True, "card": 8192, "card_ro": True},
+    "rom+card8k-ro+rejected-load": {"rom": True, "card": 8192, "card_ro": True, "rejected_load": True},
+    "rom+nocard+rejected-load": {"rom": True, "card_present": False, "rejected_load": True},
     "rom+ram-overlay": {"rom": True, "ram_overlay": [0x20000, 0x10]},
     "rom+rom-overlay": {"rom": True, "rom_overlay": [0x20008, [1, 2, 3, 4, 5, 6, 7, 8]]},
     "bare+mirror-off": {"mirror": False},
@@ -81,6 +86,8 @@ def declared_readonly(cfg: Dict[str, Any], addr: int) -> int:
         return 1
     if "readonly" in cfg and cfg["readonly"][0] <= c <= cfg["readonly"][1]:
         return 1
+    if cfg.get("card_ro") and 0x40000 <= c < 0x40000 + cfg["card"]:
+        return 1
     return 0
 
 
@@ -112,9 +119,18 @@ class PyBus:
             rom = bytearray((i * 7 + 3) & 0xFF for i in range(cfg.get("rom_len", 0x40000)))
             m.load_rom(bytes(rom))
         if "card" in cfg:
-            m.load_memory_card(bytes(cfg["card"]), cfg["card"])
+            if cfg.get("card_ro"):
+                m.load_memory_card(bytes((i * 11 + 5) & 0xFF for i in range(cfg["card"])), cfg["card"], writable=False)
+            else:
+                m.load_memory_card(bytes(cfg["card"]), cfg["card"])
         if cfg.get("card_present") is False:
             m.set_memory_card_present(False)
+        if cfg.get("rejected_load"):
+            try:
+                m.load_memory_card(b"\x55" * 1000, 1000)
+                raise MachineryError("load_memory_card accepted an unsupported size")
+            except ValueError:
+                pass
         if "ram_overlay" in cfg:
             m.add_ram(cfg["ram_overlay"][0], cfg["ram_overlay"][1], "probe_ram")
         if "rom_overlay" in cfg:
@@ -151,7 +167,9 @@ class RsBus:
             c["readonly"] = [cfg["readonly"]]
         vh.call("mem.new", cfg=c)
         self.vh = vh
-        self.supported = "rom_len" not in cfg       # a Rust ROM overlay is exactly as long as its data: no unbacked window to probe
+        # a Rust ROM overlay is exactly as long as its data (no unbacked window to probe); the card write-protect switch and the
+        # rejected-load path exist on the Python bus only
+        self.supported = "rom_len" not in cfg and "card_ro" not in cfg and "rejected_load" not in cfg
 
     def load(self, addr, w):
         v = self.vh.call("mem.load", addr=addr, bits=8 * w)["v"]
